@@ -556,4 +556,67 @@ class Urls(object):
         return 'ftp', vs, 1
 
 
-FAMILIES = [Names(), Decoys(), Contents(), ZipShapes(), Urls()]
+
+class ZipRequestHistories(object):
+    name = 'zip-request-histories'
+    describe = ('ONE ZipReader over an archive whose inner archives share member names at depth two (vendorA.zip/mibs.zip and '
+                'vendorB.zip/mibs.zip, each with a module of its own and both with COMMON-MIB in different versions and ages): every '
+                'sequence of <=3 requests over {ALPHA-MIB, BETA-MIB, COMMON-MIB, ABSENT-MIB}; every answer is what a fresh reader '
+                'gives and a (content, mtime) pair of one member')
+    NAMES = ['ALPHA-MIB', 'BETA-MIB', 'COMMON-MIB', 'ABSENT-MIB']
+
+    def blocks(self, tier):
+        return [{'first': i} for i in range(4)]
+
+    def cases(self, block, tier):
+        yield {'seq': [block['first']]}
+        for ln in (2, 3):
+            for rest in itertools.product(range(4), repeat=ln - 1):
+                yield {'seq': [block['first']] + list(rest)}
+
+    def archive(self):
+        def zb(members, dt):
+            buf = io.BytesIO()
+            with zipfile.ZipFile(buf, 'w') as z:
+                for n, data in members:
+                    z.writestr(zipfile.ZipInfo(n, date_time=dt), data)
+            return buf.getvalue()
+        da, db = (2001, 1, 1, 0, 0, 0), (2002, 2, 2, 0, 0, 0)
+        a = zb([('mibs.zip', zb([('ALPHA-MIB.txt', b'-- alpha'), ('COMMON-MIB.txt', b'-- common of vendor A')], da))], da)
+        b = zb([('mibs.zip', zb([('BETA-MIB.txt', b'-- beta'), ('COMMON-MIB.txt', b'-- common of vendor B')], db))], db)
+        pairs = {'-- alpha': da, '-- beta': db, '-- common of vendor A': da, '-- common of vendor B': db}
+        return zb([('vendorA.zip', a), ('vendorB.zip', b)], da), dict(
+            (k, time.mktime(datetime.datetime(*v).timetuple())) for k, v in pairs.items())
+
+    def run_case(self, case):
+        from pysmi.reader.zipreader import ZipReader
+        root = scratch()
+        try:
+            blob, pairs = self.archive()
+            zp = os.path.join(root, 'm.zip')
+            with open(zp, 'wb') as f:
+                f.write(blob)
+            used = ZipReader(zp)
+            vs = []
+            got = None
+            for pos, i in enumerate(case['seq']):
+                name = self.NAMES[i]
+                got = ask(used, name)
+                want = ask(ZipReader(zp), name)
+                prev = self.NAMES[case['seq'][pos - 1]] if pos else 'nothing'
+                if got[:3] != want[:3]:
+                    vs.append(('C14|zip-history|%s-after-%s|differs-from-a-fresh-reader' % (name.split('-')[0], prev.split('-')[0]),
+                               'sequence %r position %d: used reader %r, fresh reader %r' % (
+                                   [self.NAMES[j] for j in case['seq']], pos, got, want)))
+                    break
+                if got[0] == 'found' and pairs.get(got[1]) != got[2]:
+                    vs.append(('C14|zip-history|%s|content-and-mtime-of-different-members' % name.split('-')[0], repr(got)))
+                    break
+                if name != 'ABSENT-MIB' and got[0] != 'found':
+                    vs.append(('C14|zip-history|%s|member-not-served' % name.split('-')[0], repr(got)))
+                    break
+            return repr(got), vs, len(case['seq'])
+        finally:
+            shutil.rmtree(root, ignore_errors=True)
+
+FAMILIES = [Names(), Decoys(), Contents(), ZipShapes(), Urls(), ZipRequestHistories()]
